@@ -414,7 +414,7 @@ class Grammar:
                 raise TranslateError("%s: limit constant %s not found" % (fn, const))
             guarded[fn] = self.consts[const]
         # one constant per production that the model expects to be guarded; 0 = no guard in the source (unbounded)
-        for fn in sorted(set(guarded) | {"element" if namespace == "Xml" else "expr"}):
+        for fn in sorted(set(guarded) | ({"element", "children"} if namespace == "Xml" else {"expr"})):
             if fn in guarded:
                 lines.append("/-- `%s` refuses nesting deeper than this (thread-local depth counter in the source) -/" % fn)
             else:
